@@ -224,8 +224,17 @@ def _make_empty_cog(
         else:
             kw = {**opts_common, "subfiletype": FILETYPE.REDUCEDIMAGE}
 
+        empty_tiles = itertools.repeat(b"", meta.num_tiles)
+        if int(_compression) == 1 and meta.chunked.shape == (1, 1) and im_shape == shape_(tile):
+            # tifffile writes an uncompressed page that is exactly one tile "contiguously": it drains
+            # the iterator and insists on the real byte count. Hand it zeros, they end up as dead bytes
+            # inside the header, tile offsets are patched to the real data later.
+            empty_tiles = itertools.repeat(
+                bytes(tile[0] * tile[1] * np.dtype(dtype).itemsize * (nsamples if ax == "YXS" else 1)),
+                meta.num_tiles,
+            )
         tw.write(
-            itertools.repeat(b""),
+            empty_tiles,
             shape=_sh(im_shape),
             tile=tile,
             **kw,
